@@ -177,16 +177,13 @@ Section Quad.
   Definition valid_soft : Prop :=
     0 < lf_den maxlf /\ 0 < lf_den minlf /\
     2 * lf_num maxlf <= lf_den maxlf /\                                   (* maxLF <= 1/2 *)
-    lf_den maxlf <= lf_num maxlf * 31 /\                                  (* maxLF * minimum size >= 1 *)
-    (3 * lf_num minlf * lf_den maxlf <= lf_num maxlf * lf_den minlf       (* 3 * minLF <= maxLF, or *)
-     \/ (2 * lf_num minlf * lf_den maxlf <= lf_num maxlf * lf_den minlf   (* 2 * minLF <= maxLF with *)
-         /\ lf_num maxlf = 1 /\ Nat.even (lf_den maxlf) = true)).          (* maxLF = 1/(2c): 1/2, 1/4, ... *)
+    lf_den maxlf <= lf_num maxlf * 31.                                     (* maxLF * minimum size >= 1 *)
   Hypothesis Hvalid : valid_soft.
 
   (** [k * den < num * m] leaves room for [k] entries among the first (m+1)/2 probes *)
   Lemma load_room : forall x m, x * lf_den maxlf < lf_num maxlf * m -> x < qH m.
   Proof.
-    intros x m Hx. destruct Hvalid as (D1 & D2 & D3 & D4 & D5). apply qH_room.
+    intros x m Hx. destruct Hvalid as (D1 & D2 & D3 & D4). apply qH_room.
     apply Nat.mul_lt_mono_pos_r with (p := lf_den maxlf); auto.
     apply Nat.lt_le_trans with (2 * (lf_num maxlf * m)); [lia|].
     rewrite Nat.mul_assoc, (Nat.mul_comm m). apply Nat.mul_le_mono_r. exact D3.
@@ -296,7 +293,7 @@ Section Quad.
                  (forall k', qp_fun t' k' = fupd (qp_fun t) k v k') /\ qp_n K V t' <= S (qp_n K V t).
   Proof.
     intros d shuf t k v Hd [I Ld] Pm Hg. unfold qp_load in Ld.
-    destruct Hvalid as (D1 & D2 & D3 & D4 & D5). pose proof (q_min _ I) as M31.
+    destruct Hvalid as (D1 & D2 & D3 & D4). pose proof (q_min _ I) as M31.
     destruct d as [|d]; [lia|]. simpl.
     destruct (lf_ge (qp_n K V t + qp_t K V t + 1) (qp_m K V t) maxlf) eqn:G.
     - destruct (lf_ge (qp_n K V t + 1) (qp_m K V t) maxlf) eqn:G2.
@@ -333,43 +330,76 @@ Section Quad.
       split; auto. unfold qp_load. rewrite M2. nia.
   Qed.
 
-  (** after a shrink to the prime [p >= m/2] the live entries stay below the load limit, so that the
-      re-insertion loop needs no nested resize.  For option pairs with 2*minLF = maxLF exactly this
-      is a parity argument: maxLF = 1/(2c), m and p are odd. *)
-  Lemma shrink_fits : forall x m p,
-      is_prime m = true -> 31 <= m -> x * lf_den minlf <= lf_num minlf * m ->
-      m / 2 <= p -> is_prime p = true -> 31 <= p ->
-      x * lf_den maxlf < lf_num maxlf * p.
+  (** the primes asked for by a growing Put while at most [N] entries are live *)
+  Definition gap_for (N : nat) : Prop :=
+    forall n m, n <= N -> 31 <= m -> lf_ge (n + 1) m maxlf = true ->
+                exists p, 2 * m <= p < 2 * m + (2 * m + 2) /\ is_prime p = true.
+
+  (** the re-insertion loop of a shrink: the rebuilt table may grow again while entries are re-inserted
+      (maxLF < 2*minLF, or e.g. (3/16, 3/8) at m = 107); every step is an ordinary Put on a table that
+      satisfies the invariant *)
+  Lemma qp_reinsert_gen : forall d shuf rest pre acc,
+      1 <= d -> perm_oracle shuf -> gap_for (length (pre ++ rest)) ->
+      NoDup (keys (pre ++ rest)) -> qp_inv acc ->
+      (forall k, qp_fun acc k = s_get pre k) ->
+      exists t', reinsert K V (qp_put K V eqb hash maxlf d shuf) rest acc = Ok t' /\ qp_inv t' /\
+                 (forall k, qp_fun t' k = s_get (pre ++ rest) k).
   Proof.
-    intros x m p Pm M31 G Hp Pp P31. destruct Hvalid as (D1 & D2 & D3 & D4 & D5).
-    pose proof (is_prime_odd m Pm ltac:(lia)) as Em.
-    assert (Hnum : 0 < lf_num maxlf) by nia.
-    assert (A : lf_num maxlf * (m / 2) <= lf_num maxlf * p) by (apply Nat.mul_le_mono_l; lia).
-    destruct D5 as [D5|(D5 & N1 & Ev)].
-    - assert (Hpre3 : 3 * (x * lf_den maxlf) <= lf_num maxlf * m).
-      { apply Nat.mul_le_mono_pos_r with (p := lf_den minlf); auto.
-        apply Nat.le_trans with (3 * lf_num minlf * lf_den maxlf * m).
-        - replace (3 * (x * lf_den maxlf) * lf_den minlf) with (3 * lf_den maxlf * (x * lf_den minlf)) by lia.
-          replace (3 * lf_num minlf * lf_den maxlf * m) with (3 * lf_den maxlf * (lf_num minlf * m)) by lia.
-          apply Nat.mul_le_mono_l. exact G.
-        - replace (lf_num maxlf * m * lf_den minlf) with (lf_num maxlf * lf_den minlf * m) by lia.
-          apply Nat.mul_le_mono_r. exact D5. }
-      set (X := x * lf_den maxlf) in *.
-      assert (B : lf_num maxlf * m = 2 * (lf_num maxlf * (m / 2)) + lf_num maxlf) by (rewrite Em at 1; lia).
-      assert (C : lf_num maxlf * 15 <= lf_num maxlf * (m / 2)) by (apply Nat.mul_le_mono_l; lia).
-      lia.
-    - rewrite N1 in *. rewrite Nat.mul_1_l in *.
-      destruct (Nat.eq_dec (lf_num minlf) 0) as [Z|NZ].
-      + rewrite Z in G. simpl in G. assert (x = 0) by nia. subst x. simpl. lia.
-      + assert (H2 : 2 * (x * lf_den maxlf) <= m).
-        { apply Nat.mul_le_mono_pos_l with (p := lf_num minlf); [lia|].
-          apply Nat.le_trans with (x * lf_den minlf); [|exact G].
-          replace (lf_num minlf * (2 * (x * lf_den maxlf))) with (x * (2 * lf_num minlf * lf_den maxlf)) by lia.
-          apply Nat.mul_le_mono_l. exact D5. }
-        apply Nat.even_spec in Ev. destruct Ev as [c Ec].
-        pose proof (is_prime_odd p Pp ltac:(lia)) as Ep.
-        assert (EX : x * lf_den maxlf = 2 * (c * x)) by (rewrite Ec; lia).
-        lia.
+    intros d shuf rest. induction rest as [|[k v] rest IH]; intros pre acc Hd P Hg ND I F.
+    - exists acc. rewrite app_nil_r. split; [reflexivity|]. split; [exact I|exact F].
+    - rewrite reinsert_cons.
+      assert (NDpre : NoDup (keys pre)).
+      { unfold Spec.keys in *. rewrite map_app in ND. eapply NoDup_app_l. exact ND. }
+      assert (Hn : qp_n K V acc = length pre).
+      { apply qp_n_length; [apply I|]. eapply represents_ext; [apply represents_get; eauto|]. intros; now rewrite F. }
+      destruct (qp_put_ok d shuf acc k v Hd I P) as (t1 & H1 & I1 & F1 & _).
+      { intros G. apply (Hg (qp_n K V acc)); auto.
+        - rewrite Hn, app_length. lia.
+        - apply (q_min _ (proj1 I)). }
+      rewrite H1; simpl.
+      assert (Hk : ~ In k (keys pre)).
+      { unfold Spec.keys in *. rewrite map_app in ND. simpl in ND. apply NoDup_remove_2 in ND.
+        intros H; apply ND. apply in_or_app; auto. }
+      destruct (IH (pre ++ [(k, v)]) t1 Hd P) as (t' & H' & I' & F').
+      + now rewrite <- app_assoc.
+      + now rewrite <- app_assoc.
+      + exact I1.
+      + intros k'. rewrite F1, s_get_app''. unfold Spec.fupd. rewrite F.
+        destruct (eqb k k') eqn:E.
+        * apply eqb_spec in E; subst k'.
+          rewrite (proj2 (s_get_None K V eqb eqb_spec pre k) Hk).
+          unfold Spec.s_get; simpl. now rewrite (proj2 (eqb_spec k k) eq_refl).
+        * destruct (s_get pre k'); auto. unfold Spec.s_get; simpl. now rewrite E.
+      + exists t'. rewrite <- app_assoc in F'. simpl in F'. split; [exact H'|]. split; [exact I'|exact F'].
+  Qed.
+
+  Lemma qp_resize_gen : forall d shuf t m',
+      1 <= d -> qp_inv0 t -> perm_oracle shuf -> 31 <= m' -> gap_for (qp_n K V t) ->
+      (exists p, m' <= p < m' + (m' + 2) /\ is_prime p = true) ->
+      exists t', qp_resize_with K V (qp_put K V eqb hash maxlf d shuf) shuf t m' = Ok t' /\ qp_inv t' /\
+                 (forall k, qp_fun t' k = qp_fun t k) /\ qp_n K V t' = qp_n K V t.
+  Proof.
+    intros d shuf t m' Hd I Pm H31 Hg (p0 & Hp0 & Pp0). unfold qp_resize_with, qpMinM.
+    destruct Hvalid as (D1 & D2 & D3 & D4).
+    destruct (Nat.ltb_spec m' 31); [lia|].
+    unfold smallest_prime_ge. destruct (next_prime_total (m' + 2) m' p0 Hp0 Pp0) as (p & Hnp).
+    rewrite Hnp. cbn [bind]. apply next_prime_spec in Hnp. destruct Hnp as [Pp Rp].
+    destruct (qp_new_ok p Pp ltac:(lia)) as (nt & Hn & In & Fn & Mn & Nn & Tn). rewrite Hn; cbn [bind].
+    pose proof (qp_represents t shuf I Pm) as R.
+    pose proof (qp_n_length t _ I R) as Hlen.
+    destruct (qp_reinsert_gen d shuf (qp_all K V shuf t) [] nt Hd Pm) as (t' & H' & I' & F').
+    - simpl. now rewrite <- Hlen.
+    - simpl. apply R.
+    - split; auto. unfold qp_load. rewrite Nn, Tn, Mn. simpl. nia.
+    - intros k. rewrite Fn. reflexivity.
+    - rewrite H'; cbn [bind]. simpl in F'.
+      assert (Ft : forall k, qp_fun t' k = qp_fun t k).
+      { intros k. rewrite F'. symmetry. apply represents_fun; auto. }
+      set (t2 := {| qp_e := qp_e K V t'; qp_m := qp_m K V t'; qp_n := qp_n K V t'; qp_t := qp_t K V t' |}).
+      assert (E2 : t2 = t') by (destruct t'; reflexivity).
+      exists t2. rewrite E2. split; [reflexivity|]. split; [exact I'|]. split; [exact Ft|].
+      rewrite (qp_n_length t' (qp_all K V shuf t) (proj1 I')); [lia|].
+      eapply represents_ext; [exact R|]. intros; now rewrite Ft.
   Qed.
 
   Lemma frem_absent' : forall (f : K -> option V) k k', f k = None -> frem f k k' = f k'.
@@ -377,12 +407,12 @@ Section Quad.
     intros f k k' H. unfold Spec.frem. destruct (eqb k k') eqn:E; auto. apply eqb_spec in E. now subst.
   Qed.
 
-  Lemma qp_delete_ok : forall d shuf t k, 1 <= d -> qp_inv t -> perm_oracle shuf ->
+  Lemma qp_delete_ok : forall d shuf t k, 1 <= d -> qp_inv t -> perm_oracle shuf -> gap_for (qp_n K V t) ->
       exists t', qp_delete K V eqb hash minlf maxlf d shuf t k = Ok (t', qp_fun t k) /\ qp_inv t' /\
                  (forall k', qp_fun t' k' = frem (qp_fun t) k k') /\ qp_n K V t' <= qp_n K V t.
   Proof.
-    intros d shuf t k Hd Hinv Pm. pose proof Hinv as [I Ld]. unfold qp_load in Ld.
-    destruct Hvalid as (D1 & D2 & D3 & D4 & D5). pose proof (q_min _ I) as M31.
+    intros d shuf t k Hd Hinv Pm Hgf. pose proof Hinv as [I Ld]. unfold qp_load in Ld.
+    destruct Hvalid as (D1 & D2 & D3 & D4). pose proof (q_min _ I) as M31.
     set (m := qp_m K V t) in *. set (es := qp_e K V t) in *.
     pose proof (q_sinv _ I) as SI. fold m es in SI.
     destruct (lookup_any K V eqb eqb_spec m (qidx m) (qH m) (q_lt t I) (q_window t I) (qH_le _) es k SI)
@@ -420,19 +450,13 @@ Section Quad.
           destruct (Nat.ltb_spec (m / 2) 31) as [Hsmall|Hbig].
           -- unfold qp_resize_with, qpMinM. destruct (Nat.ltb_spec (m / 2) 31); [|lia]. cbn [bind].
              exists t1. split; [reflexivity|]. split; [split; auto|split; [exact F1|simpl; lia]].
-          -- apply lf_le_true in G.
-             assert (Hm2 : m <= 2 * (m / 2) + 1).
+          -- assert (Hm2 : m <= 2 * (m / 2) + 1).
              { pose proof (Nat.div_mod m 2 ltac:(lia)). pose proof (Nat.mod_upper_bound m 2 ltac:(lia)). lia. }
-             assert (Lp : forall p, m / 2 <= p -> is_prime p = true ->
-                                    pred (qp_n K V t) * lf_den maxlf < lf_num maxlf * p).
-             { intros p0 Hp0 Pp0. apply (shrink_fits _ m p0); auto; [apply (q_prime _ I)|lia]. }
-             destruct (qp_resize_ok d shuf t1 (m / 2) I1 Pm Hbig) as (t2 & H2 & I2 & F2 & M2 & N2 & T2).
+             destruct (qp_resize_gen d shuf t1 (m / 2) Hd I1 Pm Hbig) as (t2 & H2 & I2 & F2 & N2).
+             { intros n0 m0 Hn0. apply Hgf. simpl in Hn0. lia. }
              { exists m. split; [|apply (q_prime _ I)]. assert (m / 2 <= m) by (apply Nat.div_le_upper_bound; lia). lia. }
-             { exact Lp. }
-             rewrite H2; cbn [bind]. exists t2. split; [reflexivity|]. split.
-             ++ split; auto. unfold qp_load. rewrite N2, T2. change (qp_n K V t1) with (pred (qp_n K V t)). rewrite Nat.add_0_r.
-                apply Lp; [exact M2|apply (q_prime _ I2)].
-             ++ split; [intros k'; now rewrite F2, F1|]. rewrite N2. simpl. lia.
+             rewrite H2; cbn [bind]. exists t2. split; [reflexivity|]. split; [exact I2|].
+             split; [intros k'; now rewrite F2, F1|]. rewrite N2. simpl. lia.
         * exists t1. split; [reflexivity|]. split; [split; auto|split; [exact F1|simpl; lia]].
     - destruct Ho as [Hemp Habs].
       assert (Ef : qp_fun t k = None) by (unfold qp_fun; fold es; eapply key_absent; eauto).
@@ -442,7 +466,7 @@ Section Quad.
   Lemma qp_delete_all_ok : forall t, qp_inv t ->
       qp_inv (qp_delete_all K V t) /\ forall k, qp_fun (qp_delete_all K V t) k = None.
   Proof.
-    intros t [I Ld]. destruct Hvalid as (D1 & D2 & D3 & D4 & D5). pose proof (q_min _ I) as M31.
+    intros t [I Ld]. destruct Hvalid as (D1 & D2 & D3 & D4). pose proof (q_min _ I) as M31.
     unfold qp_delete_all. split; [split|].
     - constructor; simpl; try apply I.
       + apply sinv_empty. unfold qH. apply Nat.div_str_pos. lia.
@@ -491,7 +515,7 @@ Section QuadTop.
       - destruct (Nat.eqb_spec cap 0); [lia|auto]. }
     destruct Hc as (H31 & Hp).
     destruct (qp_new_ok K V eqb hash eqb_spec _ Hp H31) as (t0 & H0 & I0 & F0 & M0 & N0 & T0).
-    pose proof Hvalid as (D1 & D2 & D3 & D4 & D5).
+    pose proof Hvalid as (D1 & D2 & D3 & D4).
     assert (Hnum : 0 < lf_num maxlf) by nia.
     apply run_refines_bounded with (L := L) (Inv := qu_InvI) (Fun := qu_Fun) (t0 := TQP K V t0); auto.
     - intros i [| |s|] I; try contradiction. destruct I as [I Hn]. split; auto.
@@ -508,9 +532,15 @@ Section QuadTop.
         apply Nat.mul_le_mono_l. apply Nat.mul_le_mono_r. lia. }
       exists (TQP K V t'). rewrite H'. simpl. split; auto. split; auto. split; auto. lia.
     - intros i [| |s|] k I; try contradiction. simpl. apply qp_get_ok; auto. apply I.
-    - intros i shuf [| |s|] k I P; try contradiction. destruct I as [I Hn]. unfold delete.
+    - intros i shuf [| |s|] k Hi I P; try contradiction. destruct I as [I Hn]. unfold delete.
       destruct (qp_delete_ok K V eqb eqv hash minlf maxlf eqb_spec Hvalid depth shuf s k) as (t' & H' & I' & F' & N'); auto.
       { unfold depth; lia. }
+      { intros n0 m0 Hn0 M0' G. apply lf_ge_true in G. apply HgapB. split; [lia|].
+        apply Nat.mul_le_mono_pos_l with (p := lf_num maxlf); auto.
+        apply Nat.le_trans with (2 * lf_den maxlf * L); [|exact HL].
+        apply Nat.le_trans with (2 * ((n0 + 1) * lf_den maxlf)); [lia|].
+        replace (2 * lf_den maxlf * L) with (2 * (L * lf_den maxlf)) by lia.
+        apply Nat.mul_le_mono_l. apply Nat.mul_le_mono_r. lia. }
       exists (TQP K V t'). rewrite H'. simpl. split; auto. split; auto. split; auto. lia.
     - intros i [| |s|] I; try contradiction. destruct I as [I Hn]. simpl.
       destruct (qp_delete_all_ok K V eqb hash minlf maxlf eqb_spec Hvalid s I) as [A Bq]. split; auto. split; auto. simpl. lia.
@@ -531,5 +561,5 @@ Proof.
   intros K V eqb eqv hash minlf maxlf He Hv Hg cap orc ops Hc PO.
   apply (quad_refines_gen K V eqb eqv hash minlf maxlf He Hv (2 * lf_den maxlf * length ops) (length ops)); auto.
   - intros n Hn. apply Hg. lia.
-  - destruct Hv as (D1 & D2 & D3 & D4 & D5). assert (0 < lf_num maxlf) by nia. nia.
+  - destruct Hv as (D1 & D2 & D3 & D4). assert (0 < lf_num maxlf) by nia. nia.
 Qed.
